@@ -45,4 +45,39 @@ instance (x : List Val) (t : List Rat) (N : Nat) (a c : Int) :
     Decidable (NoUflOn x t N a c) := by
   unfold NoUflOn; infer_instance
 
+/-! ### the constructor as compiled: conversions to `FIELD` (float32), then the float kernels -/
+
+/-- `to_cy(a, FIELD)`: every entry converted to binary32 (NaN stays NaN) -/
+def toField (rnd : Rat → Rat) (x : List Val) : List Val := x.map (Option.map rnd)
+
+/-- `VisibilityGraph.__init__` up to the adjacency, **in `FIELD` arithmetic**: the write log.
+`self.time_series = to_cy(time_series, FIELD)`; `timings = to_cy(timings, FIELD)` or
+`np.arange(len(time_series), dtype=FIELD)`; `missing_value_indices = np.isnan(self.time_series)`
+(of the *converted* series); then the natural kernels with every operation rounded
+(`kernelNR rnd`) or the horizontal kernel (comparisons only) on the converted series, followed by
+`A[mv, :] = 0; A[:, mv] = 0`.  `classLogR id = classLog`. -/
+def classLogR (rnd : Rat → Rat) (x : List Val) (timings : Option (List Rat))
+    (missing horizontal : Bool) : Except Err (List (Nat × Nat)) :=
+  let xr := toField rnd x
+  let N := xr.length
+  let t := match timings with
+    | some t => t.map rnd
+    | none => (defaultTimings N).map rnd
+  if !horizontal then
+    kernelNR rnd xr t (if missing then some (nanMask xr) else none) N
+  else do
+    let log ← kernelH xr N
+    .ok (if missing then log.filter (fun p => !isMissing xr p.1 && !isMissing xr p.2) else log)
+
+/-- `Faithful` of the converted data (decided by the driver, request `faithfulc`) -/
+def FaithfulConv (rnd : Rat → Rat) (x : List Val) (timings : Option (List Rat)) : Prop :=
+  Faithful rnd (toField rnd x)
+    (match timings with
+      | some t => t.map rnd
+      | none => (defaultTimings x.length).map rnd) x.length
+
+instance (rnd : Rat → Rat) (x : List Val) (timings : Option (List Rat)) :
+    Decidable (FaithfulConv rnd x timings) := by
+  unfold FaithfulConv; infer_instance
+
 end Pyunicorn.Visibility
